@@ -137,7 +137,8 @@ def make_block(rt, k, tag, cd=None, md=None):
         # the "unknown" format code 0 is a valid block as far as the library is concerned
         b = TemporalEventsData(format=TemporalEventsDataFormat(tag % 3 != 0), start_time=np.float32(tag % 977))
         for i in range(k):
-            b.events.append(Event(lab(i), _f(tag, i, 1 + i % 2),
+            nvals = 0 if (tag + i) % 5 == 4 else 1 + i % 2     # (an event that has not happened: no values)
+            b.events.append(Event(lab(i), _f(tag, i, nvals),
                                   EventsDataType.singleEvent if i % 2 == 0 else EventsDataType.eventSequence))
     else:
         raise ValueError(rt)
@@ -186,7 +187,7 @@ def bad_block(rt, k, tag, variant, cd=None, md=None):
     Returns (obj, kind) with kind in {'text','format','object'}: types without
     text fields fall back to 'format', types without a refused format to 'object'."""
     k = max(k, 1)
-    text_variant = variant not in ("format", "object", "format_attr")
+    text_variant = variant not in ("format", "object", "format_attr", "date")
     if text_variant and rt not in LABELLED:
         variant = "format"
     if variant == "format" and _refused_format(rt) is None:
@@ -194,6 +195,15 @@ def bad_block(rt, k, tag, variant, cd=None, md=None):
     if variant == "object":
         return NotABlock(), "object"
     b = make_block(rt, k, tag, cd, md)
+    if variant == "date":
+        # a date one second past what the 32-bit field of the table entry can hold: the ENTRY cannot
+        # be encoded (the block itself can)
+        from datetime import datetime as _dt
+        if tag % 2:
+            b.creation_date = _dt.fromtimestamp(2 ** 31)
+        else:
+            b.last_modification_date = _dt.fromtimestamp(-2 ** 31 - 1)
+        return b, "object"
     if variant == "format_attr":
         # a block object whose format attribute is not a format (a plain int): the table entry
         # cannot be built from it; encoders that never look at the format would still write it
@@ -219,7 +229,7 @@ def bad_block(rt, k, tag, variant, cd=None, md=None):
     return b, "text"
 
 
-BAD_VARIANTS = ["long_first", "long_last", "nonlatin_first", "nonlatin_last", "format", "object", "format_attr"]
+BAD_VARIANTS = ["long_first", "long_last", "nonlatin_first", "nonlatin_last", "format", "object", "format_attr", "date"]
 
 
 def encode(block):
